@@ -136,6 +136,8 @@ ObjIds == {"o1", "o2", "o3", "o4", "o5", "o6", "o7", "o8"}
 ObjOf(id) == CASE id = "o1" -> O1 [] id = "o2" -> O2 [] id = "o3" -> O3 [] id = "o4" -> O4
                [] id = "o5" -> O5 [] id = "o6" -> O6 [] id = "o7" -> O7 [] id = "o8" -> O8
 
+RRead(tag, e, refine) == [tag |-> tag, kind |-> "refine", e |-> e, grid |-> "integrator", refine |-> refine]
+SRead(tag, e, tq) == [tag |-> tag, kind |-> "sampler", e |-> e, grid |-> "", refine |-> 0, tq |-> tq]
 MRead(tag, kind, es, grid) == [tag |-> tag, kind |-> kind, es |-> es, grid |-> grid, refine |-> 0]
 Read(tag, kind, e, grid) == [tag |-> tag, kind |-> kind, e |-> e, grid |-> grid, refine |-> 0]
 =============================================================================
